@@ -195,7 +195,9 @@ func kinds() []reqKind {
 			r := o.(*type1.BasicPrivateTokenRequest)
 			return [][]byte{{r.TokenKeyID}, r.BlindedReq}
 		}, func(c *h.Ctx) []byte { return cat([]byte{byte(c.Rng.Intn(256))}, rnd(c, 49)) },
-			func(c *h.Ctx) []byte { return cat([]byte{byte(c.Rng.Intn(256))}, rnd(c, []int{0, 48, 50}[c.Rng.Intn(3)])) }},
+			func(c *h.Ctx) []byte {
+				return cat([]byte{byte(c.Rng.Intn(256))}, rnd(c, []int{0, 48, 50}[c.Rng.Intn(3)]))
+			}},
 		{"hist_req2", 2, func(s []byte) reqObj {
 			if s == nil {
 				return new(type2.BasicPublicTokenRequest)
@@ -205,7 +207,9 @@ func kinds() []reqKind {
 			r := o.(*type2.BasicPublicTokenRequest)
 			return [][]byte{{r.TokenKeyID}, r.BlindedReq}
 		}, func(c *h.Ctx) []byte { return cat([]byte{byte(c.Rng.Intn(256))}, rnd(c, 256)) },
-			func(c *h.Ctx) []byte { return cat([]byte{byte(c.Rng.Intn(256))}, rnd(c, []int{0, 255, 257}[c.Rng.Intn(3)])) }},
+			func(c *h.Ctx) []byte {
+				return cat([]byte{byte(c.Rng.Intn(256))}, rnd(c, []int{0, 255, 257}[c.Rng.Intn(3)]))
+			}},
 		{"hist_req3", 3, func(s []byte) reqObj {
 			if s == nil {
 				return new(type3.RateLimitedTokenRequest)
@@ -480,6 +484,11 @@ func c04Encap(c *h.Ctx) {
 		id, kem, kdf, aead, pk := k.VerifFields()
 		re := k.Marshal()
 		c.Case(cat_, true, "dec_encap", [][]byte{data, {v}}, [][]byte{h.StOK, re, {id}, u16b(kem), pk, u16b(kdf), u16b(aead)})
+		// decoding the encoding of a well-formed value returns that value: the fields are those laid out in the bytes
+		if n := sizes[kem]; len(data) >= 3+n+4 && (id != data[0] || kem != binary.BigEndian.Uint16(data[1:]) || !bytes.Equal(pk, data[3:3+n]) ||
+			kdf != binary.BigEndian.Uint16(data[3+n:]) || aead != binary.BigEndian.Uint16(data[5+n:])) {
+			c.Violation("encap key: decoding the encoding of a well-formed value returns that value (id, KEM, public key, KDF, AEAD)", map[string]any{"input": h.Hex(data), "decoded_kdf": kdf, "decoded_aead": aead})
+		}
 		k2, err2 := type3.UnmarshalEncapKey(re)
 		if len(re) > len(data) || err2 != nil || !bytes.Equal(k2.Marshal(), re) {
 			c.Violation("encap key: accepted bytes re-encode canonically", map[string]any{"input": h.Hex(data)})
